@@ -141,3 +141,8 @@ pub fn mirror_table(t: &Table) -> Table {
     }
     out
 }
+
+/// JSON form of a bigraded table (tuple keys are not valid JSON object keys)
+pub fn tj(t: &Table) -> serde_json::Value {
+    serde_json::Value::Object(t.iter().map(|(k, v)| (format!("({},{})", k.0, k.1), serde_json::json!([v.0, v.1]))).collect())
+}
